@@ -316,44 +316,70 @@ def rule_scope_flags(rep: Report, repo: Repo):
     # equal_eigs: the kept pairs of a fully diagonalised block are the pairs the diagonal solver treats as
     # degenerate: numeric |E_a - E_b| < atol with the same `atol` that is handed to the solver; symbolic: equality
     ee = [n for n in own_nodes(f) if isinstance(n, ast.Assign) and norm(n.targets[0]) == "equal_eigs"]
-    pred = None
-    if len(ee) == 1 and isinstance(ee[0].value, ast.DictComp):
-        dc = ee[0].value
-        keyvar = norm(dc.key)
-        over = norm(dc.generators[0].iter)
-        arms = [dc.value]
-        if isinstance(dc.value, ast.IfExp):
-            arms = [dc.value.body, dc.value.orelse]
-        preds = []
-        for arm in arms:
-            e = arm
-            while isinstance(e, ast.Call) and isinstance(e.func, ast.Attribute) and e.func.attr == "astype":
-                e = e.func.value
-            if isinstance(e, ast.Compare) and len(e.ops) == 1:
-                l, r, op = e.left, e.comparators[0], e.ops[0]
-                if isinstance(l, ast.Call) and call_name(l) in ("np.abs", "abs") and isinstance(l.args[0], ast.BinOp) \
-                        and isinstance(l.args[0].op, ast.Sub) and isinstance(op, (ast.Lt, ast.LtE)):
-                    d = l.args[0]
-                    pair = {norm(d.left), norm(d.right)} == {f"diagonal[{keyvar}].reshape(-1, 1)", f"diagonal[{keyvar}]"}
-                    preds.append(("numeric", "|E_a - E_b| < tol", norm(r), pair))
-                    continue
-                if isinstance(op, ast.Eq) and norm(r) == "True" and isinstance(l, ast.Compare) and isinstance(l.ops[0], ast.Eq):
-                    pair = {norm(l.left), norm(l.comparators[0])} == {f"diagonal[{keyvar}].reshape(-1, 1)", f"diagonal[{keyvar}]"}
-                    preds.append(("exact", "E_a == E_b", None, pair))
-                    continue
-            preds.append(("?", norm(arm)[:60], None, False))
-        pred = (over, preds)
-    ok = pred is not None and pred[0] == "set(fully_diagonalize)" and all(p[3] for p in pred[1]) \
-        and any(p[0] == "numeric" and p[2] == "atol" for p in pred[1]) and all(p[0] in ("numeric", "exact") for p in pred[1])
-    # a numeric block must never be compared exactly: the exact arm is only for symbolic (object) diagonals
-    if ok and len(pred[1]) == 2:
-        test = norm(ee[0].value.value.test)
-        ok = test in ("diagonal[i].dtype != object", "diagonal[i].dtype == object") and \
-            ((pred[1][0][0] == "numeric") == (test == "diagonal[i].dtype != object"))
+    if len(ee) != 1 or not isinstance(ee[0].value, ast.DictComp) or len(ee[0].value.generators) != 1:
+        raise AnalysisError(R, "definition of equal_eigs (kept pairs of fully diagonalised blocks) not found as one dict comprehension")
+    dc = ee[0].value
+    gen = dc.generators[0]
+    keyvar = norm(dc.key)
+    # (1) key set = the blocks the user asked to diagonalise fully
+    energies = f"diagonal[{keyvar}]"   # text that denotes the block's energies inside the value expression
+    alias = None
+    it = gen.iter
+    if isinstance(gen.target, ast.Name) and gen.target.id == keyvar:
+        keyset = norm(it)
+    elif isinstance(gen.target, ast.Tuple) and len(gen.target.elts) == 2 and norm(gen.target.elts[0]) == keyvar \
+            and isinstance(it, ast.Call) and call_name(it) == "enumerate" and len(it.args) == 1:
+        alias = norm(gen.target.elts[1])
+        inner = it.args[0]
+        arms = [inner.body, inner.orelse] if isinstance(inner, ast.IfExp) else [inner]
+        if all(norm(a) in ("diagonal", "()", "[]") for a in arms):
+            keyset = "every block of `diagonal`"
+        else:
+            keyset = norm(it)
+    else:
+        keyset = norm(it)
+    filt = [norm(c) for c in gen.ifs]
+    if filt in ([f"{keyvar} in fully_diagonalize"], [f"{keyvar} in set(fully_diagonalize)"]) and keyset == "every block of `diagonal`":
+        keyset = "set(fully_diagonalize)"
+    ok_keys = keyset in ("set(fully_diagonalize)", "fully_diagonalize", "sorted(fully_diagonalize)", "sorted(set(fully_diagonalize))",
+                         "tuple(fully_diagonalize)", "list(fully_diagonalize)", "fully_diagonalize.keys()")
+    rep.check(ok_keys, R, f"{MOD}::block_diagonalize the kept-pairs masks are built for exactly the blocks listed in fully_diagonalize",
+              f"keys range over {keyset}" + ("" if ok_keys else ": every block with a key is treated as fully diagonalised by diag/offdiag "
+              "(`index[0] in to_keep`), so blocks the user did not list would get in-block elimination"), loc(ee[0]))
+    # (2) predicate
+    def is_energy(x, column):
+        t = norm(x)
+        base = [energies] + ([alias] if alias else [])
+        return any(t == (f"{b}.reshape(-1, 1)" if column else b) for b in base)
+    arms = [dc.value.body, dc.value.orelse] if isinstance(dc.value, ast.IfExp) else [dc.value]
+    preds = []
+    for arm in arms:
+        e = arm
+        while isinstance(e, ast.Call) and isinstance(e.func, ast.Attribute) and e.func.attr == "astype":
+            e = e.func.value
+        kind = ("?", norm(arm)[:60], None, False)
+        if isinstance(e, ast.Compare) and len(e.ops) == 1:
+            l, r, op = e.left, e.comparators[0], e.ops[0]
+            if isinstance(l, ast.Call) and call_name(l) in ("np.abs", "abs") and l.args and isinstance(l.args[0], ast.BinOp) \
+                    and isinstance(l.args[0].op, ast.Sub) and isinstance(op, (ast.Lt, ast.LtE)):
+                d = l.args[0]
+                pair = (is_energy(d.left, True) and is_energy(d.right, False)) or (is_energy(d.left, False) and is_energy(d.right, True))
+                kind = ("numeric", "|E_a - E_b| < tol", norm(r), pair)
+            elif isinstance(op, ast.Eq) and norm(r) == "True" and isinstance(l, ast.Compare) and isinstance(l.ops[0], ast.Eq):
+                a1, a2 = l.left, l.comparators[0]
+                pair = (is_energy(a1, True) and is_energy(a2, False)) or (is_energy(a1, False) and is_energy(a2, True))
+                kind = ("exact", "E_a == E_b", None, pair)
+        preds.append(kind)
+    ok = all(p[3] for p in preds) and any(p[0] == "numeric" and p[2] == "atol" for p in preds) and all(p[0] in ("numeric", "exact") for p in preds)
+    if ok and len(preds) == 2:
+        test = norm(dc.value.test)
+        for b in [energies] + ([alias] if alias else []):
+            test = test.replace(b, "E")
+        ok = test in ("E.dtype != object", "E.dtype == object") and ((preds[0][0] == "numeric") == (test == "E.dtype != object"))
     elif ok:
-        ok = pred[1][0][0] == "numeric"
+        ok = preds[0][0] == "numeric"
     rep.check(ok, R, f"{MOD}::block_diagonalize kept pairs of a fully diagonalised block are the degenerate pairs |E_a - E_b| < atol (exact only for symbolic energies)",
-              str(pred), loc(ee[0] if ee else f))
+              str(preds), loc(ee[0]))
     sd = [c for c in own_nodes(f) if isinstance(c, ast.Call) and call_name(c) == "solve_sylvester_diagonal"]
     ok = len(sd) == 1 and {k.arg: norm(k.value) for k in sd[0].keywords}.get("atol") == "atol" and norm(sd[0].args[0]) == "diagonal"
     rep.check(ok, R, f"{MOD}::block_diagonalize the diagonal solver gets the same energies and the same tolerance as the kept-pairs mask",
